@@ -8,6 +8,8 @@ HERE="$(cd "$(dirname "$0")/.." && pwd)"
 cd "$HERE" && VERIF_REPO="$W" ./check "$PROP" "$TIER"
 RC=$?
 git -C /repo worktree remove --force "$W"
+KEY="$(python3 -c "import hashlib,sys;print(hashlib.sha1(sys.argv[1].encode()).hexdigest()[:10])" "$W")"
+mkdir -p "$HERE/.build/mut-evidence" && rm -rf "$HERE/.build/mut-evidence/$KEY" && mv "$HERE/.build/$KEY/evidence" "$HERE/.build/mut-evidence/$KEY" 2>/dev/null && echo "evidence of this run kept in $HERE/.build/mut-evidence/$KEY"
 rm -rf "$HERE/.build/$(python3 -c "import hashlib,sys;print(hashlib.sha1(sys.argv[1].encode()).hexdigest()[:10])" "$W")"
 echo "mutrun rc=$RC"
 exit $RC
